@@ -12,6 +12,8 @@ import VProofs.JsonCanon
 import VGen.Versions
 import VProofs.EventAccessorsRedact
 import VProofs.StateResNoPanic
+import VProofs.AuthRulesNoPanic
+import VModel.EventBuild
 namespace V.C18
 open V V.Json
 
@@ -321,5 +323,177 @@ example : fcs [exEv b!"$a:h" b!"m.room.power_levels" [(b!"auth_events", .arr [ex
 -- evaluated by the driver only: corpus/C18/stateres.ops, witnesses W2 and W3.)
 
 end Resolution
+
+/-! ## Second audit round: the sender lookup with any querier (P2), the reference lists of a remote proto event (P1)
+
+Sites: lean/VModel/PanicSites.md §7 (every call of a `spec.UserIDForSender`) and §6 (event_builder.go). -/
+
+section Querier
+open V.Auth V.AuthRules
+
+/-- **The two sender lookups that had no nil guard, for ANY querier** (`createEventAllowed`, `aliasEventAllowed`): whatever
+    a `spec.UserIDForSender` answers — a user ID, an error, or `(nil, nil)` — neither check reaches a panic site, as long
+    as the querier itself returns.  (`RoomIDWellFormed`: what the event constructors guarantee, as in `no_panic_allowed`.) -/
+theorem no_panic_sender_lookup (q : Querier) (hq : ∀ s site, q s ≠ .error (.panic site)) (c : Ctx) (e : Event)
+    (hw : RoomIDWellFormed e) :
+    ∀ site, c.createEventAllowedQ q e ≠ .error (.panic site) ∧ c.aliasEventAllowedQ q e ≠ .error (.panic site) :=
+  fun site => ⟨(np_createQ q (fun s => ⟨hq s⟩) c e hw).h site, (np_aliasesQ q (fun s => ⟨hq s⟩) c e).h site⟩
+
+/-- with the standard querier the parametrised checks ARE the checks of `V.C07.allowed_eq_spec` / `no_panic_allowed` -/
+theorem sender_lookup_std (c : Ctx) (e : Event) :
+    c.createEventAllowedQ stdQuerier e = c.createEventAllowed e ∧ c.aliasEventAllowedQ stdQuerier e = c.aliasEventAllowed e :=
+  ⟨createEventAllowedQ_std c e, aliasEventAllowedQ_std c e⟩
+
+/-- a `(nil, nil)` answer refuses the event (the repaired behaviour: before, `*sender` / `sender.Domain()` on nil) -/
+theorem sender_lookup_nil_refused (q : Querier) (c : Ctx) (e : Event) (hq : q e.sender = .ok none) :
+    c.aliasEventAllowedQ q e = notAllowed ∧
+    (e.stateKeyEquals [] = true → ¬ e.prevEventIDs.length > 0 → c.createEventAllowedQ q e = notAllowed) :=
+  ⟨aliasesQ_nil_refused q c e hq, fun h1 h2 => createQ_nil_refused q c e hq h1 h2⟩
+
+/-- **`Allowed` with the querier that answers `(nil, nil)` for a sender that is not a user ID never panics** — the
+    counterpart of `V.C07.no_panic_allowed` (standard querier) for what a pseudo-ID homeserver's querier does. -/
+theorem no_panic_allowed_nil_querier (e : Event) (p : Provider) (sig : Bool) (hr : e.roomID ≠ []) (hw : RoomIDWellFormed e) :
+    ∀ site, allowedFreshNilQ e p sig ≠ .panic site := by
+  intro site
+  unfold allowedFreshNilQ
+  split
+  · intro h; cases h
+  · rw [update_empty]
+    cases hfo : freshOf p with
+    | error v =>
+      obtain ⟨w, rfl⟩ := freshOf_error hfo
+      intro h; cases h
+    | ok c =>
+      simp only
+      have := (np_allowedNilQ c p (fresh_of hfo) e sig hr hw).h site
+      cases hca : c.allowedNilQ e sig with
+      | ok u => intro h; cases h
+      | error v =>
+        simp only
+        intro h
+        subst h
+        exact this hca
+
+/-- the former crash, kernel-checked to be refused: an org.matrix.msc4014 create event from the key `Zm9v` (no user ID),
+    and an aliases event from it in a room whose create event is fine; the same two events from a user ID are decided
+    as before.  (Non-vacuity of the hypotheses of the theorems above as well: room ID `!room:hs1`.) -/
+def exCreate (sender : Bytes) : Event :=
+  { ver := b!"org.matrix.msc4014", eventID := b!"$c", obj :=
+      [(b!"type", .str b!"m.room.create"), (b!"sender", .str sender), (b!"room_id", .str b!"!room:hs1"),
+       (b!"state_key", .str []), (b!"content", .obj [(b!"creator", .str b!"@creator:hs1")]), (b!"prev_events", .arr [])] }
+def exAliases (sender : Bytes) : Event :=
+  { ver := b!"org.matrix.msc4014", eventID := b!"$a", obj :=
+      [(b!"type", .str b!"m.room.aliases"), (b!"sender", .str sender), (b!"room_id", .str b!"!room:hs1"),
+       (b!"state_key", .str sender), (b!"content", .obj []), (b!"prev_events", .arr [.str b!"$c"])] }
+
+theorem nil_querier_witnesses :
+    allowedFreshNilQ (exCreate b!"Zm9v") (Provider.ofEvents []) = .notAllowed ∧
+    allowedFreshNilQ (exAliases b!"Zm9v") (Provider.ofEvents [exCreate b!"@creator:hs1"]) = .notAllowed ∧
+    allowedFreshNilQ (exCreate b!"@creator:hs1") (Provider.ofEvents []) = .ok ∧
+    allowedFreshNilQ (exAliases b!"@creator:hs1") (Provider.ofEvents [exCreate b!"@creator:hs1"]) = .notAllowed := by
+  decide +kernel
+
+end Querier
+
+section References
+open V.EventParse V.EventBuild
+
+/-- **No reference list makes `EventBuilder.Build`'s conversion panic** (event format 1, room versions 1–2): for every
+    JSON value a remote server may put in `prev_events` / `auth_events` of a proto event — or for no member at all —
+    `eventReferencesFrom` returns references or an ordinary error.  Every former panic site (`ev[0]` on `[]`,
+    `ev[0].(string)`, `eventID[1:]` on `""`) is a branch of `refOfEntry` / `checkedEventHash`. -/
+theorem no_panic_event_references (v : Option JVal) : ∀ site, refsOfJSON v ≠ .error (.panic site) := by
+  intro site
+  have hh : ∀ id x, checkedEventHash id = .error x → x = errOther := by
+    intro id x h
+    unfold checkedEventHash at h
+    split at h
+    · cases h
+    · cases h; rfl
+  have he : ∀ (x : JVal) y, refOfEntry x = .error y → y = errOther := by
+    intro x y h
+    unfold refOfEntry at h
+    split at h
+    · split at h
+      · rename_i hx; cases h; exact hh _ _ hx
+      · cases h
+    · cases h; rfl
+    · split at h
+      · rename_i hx; cases h; exact hh _ _ hx
+      · cases h
+    · cases h; rfl
+    · cases h
+  have hm : ∀ (xs : List JVal) y, xs.mapM refOfEntry = .error y → y = errOther := by
+    intro xs
+    induction xs with
+    | nil => intro y h; simp [List.mapM_nil, pure, Except.pure] at h
+    | cons x xs ih =>
+      intro y h
+      simp only [List.mapM_cons, bind, Except.bind] at h
+      split at h
+      · rename_i hx; cases h; exact he _ _ hx
+      · split at h
+        · rename_i hxs; cases h; exact ih _ hxs
+        · simp [pure, Except.pure] at h
+  unfold refsOfJSON
+  split
+  · intro h; cases h
+  · intro h; cases h
+  · split
+    · rename_i hx
+      intro h
+      cases h
+      have := hm _ _ hx
+      cases this
+    · intro h; cases h
+  · intro h; cases h
+
+/-- the same for a list of event IDs given as `[]string` (what a local caller, or `AddAuthEvents`, stores) -/
+theorem no_panic_event_references_ids (ids : List Bytes) : ∀ site, refsV1 ids ≠ .error (.panic site) := by
+  intro site
+  induction ids generalizing site with
+  | nil => intro h; simp [refsV1, List.mapM_nil, pure, Except.pure] at h
+  | cons id ids ih =>
+    intro h
+    simp only [refsV1, List.mapM_cons, bind, Except.bind] at h
+    split at h
+    · rename_i hx
+      split at hx
+      · rename_i hc
+        unfold checkedEventHash at hc
+        split at hc
+        · cases hc
+        · cases hc; cases hx; cases h
+      · cases hx
+    · split at h
+      · rename_i hrest
+        cases h
+        exact ih site (by simpa [refsV1] using hrest)
+      · simp [pure, Except.pure] at h
+
+/-- the former crashes, kernel-checked to be ordinary errors now (`"prev_events":[[]]`, `[[5,{}]]`, `[""]`, `[[""]]`), the
+    entries that are skipped, and a list that converts -/
+def refsErr (r : Except Err (List JVal)) : Bool :=
+  match r with
+  | .error (.other w) => w == "other"
+  | _ => false
+def refsAre (r : Except Err (List JVal)) (text : Bytes) : Bool :=
+  match r with
+  | .ok l => encodeCanon (.arr l) == text
+  | .error _ => false
+
+theorem event_references_witnesses :
+    (refsErr (refsOfJSON (some (.arr [.arr []]))) &&
+     refsErr (refsOfJSON (some (.arr [.arr [.num b!"5", .obj []]]))) &&
+     refsErr (refsOfJSON (some (.arr [.str []]))) &&
+     refsErr (refsOfJSON (some (.arr [.arr [.str []]]))) &&
+     refsErr (refsOfJSON (some (.arr [.str b!"x"]))) &&
+     refsAre (refsOfJSON (some (.arr [.num b!"5", .null, .obj [], .bool true]))) b!"[]" &&
+     refsAre (refsOfJSON (some (.obj []))) b!"[]" && refsAre (refsOfJSON none) b!"[]" &&
+     refsAre (refsOfJSON (some (.arr [.str b!"$abcd:x", .arr [.str b!"$c:d", .obj [(b!"sha256", .str b!"x")]]])))
+       b!"[[\"$abcd:x\",{\"sha256\":\"abcd\"}],[\"$c:d\",{\"sha256\":\"\"}]]") = true := by
+  decide +kernel
+
+end References
 
 end V.C18
